@@ -249,5 +249,32 @@ DedupCI(L, seen) == IF L = <<>> THEN <<>>
                     ELSE IF LowerA(Head(L)) \in seen THEN DedupCI(Tail(L), seen)
                     ELSE <<Head(L)>> \o DedupCI(Tail(L), seen \cup {LowerA(Head(L))})
 SetItems(L) == DedupCI(L, {})
+\* HeaderSet built through its public mutators.  A mutation: [op, a: text, l: <<text>>, i: python index]
+LowSet(items) == {LowerA(items[k]) : k \in 1..Len(items)}
+FirstCI(items, a) == LET H == {k \in 1..Len(items) : LowerA(items[k]) = LowerA(a)} IN IF H = {} THEN 0 ELSE CHOOSE k \in H : \A j \in H : k <= j
+DelAt(items, i) == SubSeq(items, 1, i - 1) \o SubSeq(items, i + 1, Len(items))
+HSAdd(items, a) == IF LowerA(a) \in LowSet(items) THEN items ELSE Append(items, a)
+RECURSIVE HSUpdate(_, _)
+HSUpdate(items, L) == IF L = <<>> THEN items ELSE HSUpdate(HSAdd(items, Head(L)), Tail(L))
+HSRemove(items, a) == LET i == FirstCI(items, a) IN IF i = 0 THEN items ELSE DelAt(items, i)
+\* hs[i] = a : the item is replaced; a set holds a header once, so another item with that name (any letter case) goes
+HSSetItem(items, i, a) == LET r == [items EXCEPT ![i] = a]
+                              O == {k \in 1..Len(items) : k # i /\ LowerA(items[k]) = LowerA(a)} IN
+                          IF O = {} THEN r ELSE DelAt(r, CHOOSE k \in O : \A j \in O : k <= j)
+\* what the assignment did before it was repaired: the duplicate stays in the list (and len / membership disagree with it)
+HSSetItemNaive(items, i, a) == [items EXCEPT ![i] = a]
+PyIdx(items, i) == IF i >= 0 THEN i + 1 ELSE Len(items) + i + 1
+HSMut(items, m) ==
+  LET k == PyIdx(items, m.i) IN
+  CASE m.op = "add" -> HSAdd(items, m.a)
+    [] m.op = "update" -> HSUpdate(items, m.l)
+    [] m.op \in {"remove", "discard"} -> HSRemove(items, m.a)          \* remove raises KeyError for a missing header: no change
+    [] m.op = "clear" -> <<>>
+    [] m.op = "setitem" -> IF k \in 1..Len(items) THEN HSSetItem(items, k, m.a) ELSE items
+    [] m.op = "delitem" -> IF k \in 1..Len(items) THEN DelAt(items, k) ELSE items
+    [] OTHER -> items
+RECURSIVE HSApply(_, _)
+HSApply(items, muts) == IF muts = <<>> THEN items ELSE HSApply(HSMut(items, Head(muts)), Tail(muts))
+NoDupCI(items) == \A i, j \in 1..Len(items) : i # j => LowerA(items[i]) # LowerA(items[j])
 SetUnmodelled(L) == \E i \in 1..Len(L) : \E j \in 1..Len(L[i]) : L[i][j] >= 128       \* str.lower() beyond ASCII
 =============================================================================
